@@ -8,7 +8,8 @@ set_option pp.structureInstances false
 
 /-- the final-size conflict of a STREAM frame ending at `end_` -/
 def Recv.finalSizeConflict (r : Recv) (end_ : Nat) (fin : Bool) : Prop :=
-  ∃ fo, r.finalOffset = some fo ∧ (end_ > fo ∨ (fin = true ∧ end_ ≠ fo))
+  (∃ fo, r.finalOffset = some fo ∧ (end_ > fo ∨ (fin = true ∧ end_ ≠ fo))) ∨
+  (fin = true ∧ end_ < r.end_)
 
 theorem creditConsumedBy_cases {r : Recv} {offset received maxData : Nat} {res : Except TErr Nat}
     (h : r.creditConsumedBy offset received maxData = some res) :
@@ -33,6 +34,7 @@ theorem creditConsumedBy_cases {r : Recv} {offset received maxData : Nat} {res :
 theorem finalSizeErr_iff (r : Recv) (end_ : Nat) (fin : Bool) :
     r.finalSizeErr end_ fin = true ↔ r.finalSizeConflict end_ fin := by
   unfold Recv.finalSizeErr Recv.finalSizeConflict
+  simp only [Gen.ingestFinBelowEndIsError, Bool.true_and]
   cases hfo : r.finalOffset with
   | none => simp
   | some fo => simp
